@@ -78,12 +78,134 @@ Proof.
   destruct (validate_conditions t w0 Hv) as [H1 [H2 [H3 [H4 [H5 [H6 [H7 _]]]]]]]. auto 10.
 Qed.
 
-(* ... and a refusal emits nothing: by the result type, an error or a panic carries no problems *)
-Theorem refusal_emits_nothing t :
+(* a remark about the RESULT TYPE only (not a property of the checks): a result that is not Ok is
+   Err or Panic, and only Ok carries problems.  Kept out of the headline list (audit A11). *)
+Lemma result_type_note t :
   (forall w pbs, decompose_ext t <> Ok (w, pbs)) ->
   (exists e, decompose_ext t = Err e) \/ decompose_ext t = Panic.
 Proof.
   intros Hn. destruct (decompose_ext t) as [[w pbs]|e|] eqn:E; [exfalso; exact (Hn w pbs eq_refl)|eauto|auto].
+Qed.
+
+(* ---------- violated => refused, with an error VALUE (never a panic, never problems) ---------- *)
+Lemma validate_never_panics t : validate t <> Panic.
+Proof using is_tight has_private_recursion.
+  clear tau_star completion simp_classic.
+  unfold external_validate, ensure_program_tightness.
+  destruct (et_repr t); [discriminate|].
+  repeat match goal with
+  | |- context [if ?c then _ else _] => destruct c; try discriminate
+  | |- context [match et_specification t with _ => _ end] => destruct (et_specification t)
+  end.
+Qed.
+
+Definition all_seven (t : ext_task) : bool :=
+  c_tight is_tight t && c_no_private_recursion has_private_recursion t && c_no_input_in_head t &&
+  c_io_disjoint t && c_ug_assumptions_inputs_only t && c_spec_assumptions_no_output t &&
+  c_placeholders_single_sorted t.
+
+(* the errors of the applicability checks (the other variants: representation, roles, outline) *)
+Definition applicability_error (e : ext_error) : bool :=
+  match e with
+  | NonTightProgram | ProgramContainsPrivateRecursion | InputPredicateInRuleHead
+  | InputOutputPredicatesOverlap | AssumptionContainsNonInputSymbols
+  | OutputPredicateInSpecificationAssumption | PlaceholdersWithIdenticalNamesDifferentSorts => true
+  | _ => false
+  end.
+
+Theorem violation_refused t : all_seven t = false ->
+  exists e, validate t = Err e /\ decompose_ext t = Err e.
+Proof.
+  intros H. unfold external_decompose.
+  destruct (external_validate is_tight has_private_recursion t) as [w|e|] eqn:E.
+  - destruct (validate_conditions t w E) as [H1 [H2 [H3 [H4 [H5 [H6 [H7 _]]]]]]].
+    unfold all_seven in H. rewrite H1, H2, H3, H4, H5, H6, H7 in H. discriminate.
+  - eauto.
+  - exfalso. exact (validate_never_panics _ E).
+Qed.
+
+(* every error of the validation names a condition that is really violated *)
+Definition error_names_violation (t : ext_task) (e : ext_error) : Prop :=
+  match e with
+  | UnsupportedFormulaRepresentation => et_repr t = ReprMu
+  | NonTightProgram => c_tight is_tight t = false
+  | ProgramContainsPrivateRecursion => c_no_private_recursion has_private_recursion t = false
+  | InputOutputPredicatesOverlap => c_io_disjoint t = false
+  | InputPredicateInRuleHead => c_no_input_in_head t = false
+  | PlaceholdersWithIdenticalNamesDifferentSorts => c_placeholders_single_sorted t = false
+  | OutputPredicateInSpecificationAssumption => c_spec_assumptions_no_output t = false
+  | AssumptionContainsNonInputSymbols =>
+      c_ug_assumptions_inputs_only t = false \/
+      exists s, et_specification t = inr s /\
+        assumptions_only_input (task_prog_private t) (ug_input_predicates (et_user_guide t)) s = false
+  | SpecificationContainsUnsupportedRoles =>
+      exists s, et_specification t = inr s /\ spec_roles_supported s = false
+  | OutputPredicateInUserGuideAssumption | ProofOutlineError _ => False
+  end.
+
+Theorem validate_error_sound t e : validate t = Err e -> error_names_violation t e.
+Proof using is_tight has_private_recursion.
+  clear tau_star completion simp_classic.
+  destruct t as [spec prog ug po dec dir repr byp simp brk].
+  unfold external_validate, error_names_violation, c_tight, c_no_private_recursion, c_no_input_in_head,
+    c_io_disjoint, c_ug_assumptions_inputs_only, c_spec_assumptions_no_output, c_placeholders_single_sorted,
+    task_prog_private, task_spec_private, ensure_program_tightness.
+  cbn [et_specification et_program et_user_guide et_repr et_bypass_tightness].
+  destruct repr; [intros [= <-]; reflexivity|].
+  destruct spec as [p|s];
+    repeat (match goal with
+            | |- context [if negb ?c then _ else _] => destruct c eqn:?; cbn [negb]
+            | |- context [if ?c then _ else _] => destruct c eqn:?
+            end);
+    try discriminate; intros [= <-]; cbn [negb andb orb];
+    repeat match goal with H : ?x = _ |- context [?x] => rewrite H end; cbn [negb andb orb];
+    try reflexivity; try (apply andb_false_r); try (left; reflexivity);
+    try (right; eexists; split; [reflexivity|assumption]);
+    try (eexists; split; [reflexivity|assumption]).
+Qed.
+
+(* ... and the variant is the one of the violated condition when it is the only one violated
+   (the checks run in source order and stop at the first failure, so with several violations the
+   first one in that order is reported: validate_error_sound) *)
+Definition variant_of (k : nat) : ext_error :=
+  match k with
+  | 1 => NonTightProgram | 2 => ProgramContainsPrivateRecursion | 3 => InputPredicateInRuleHead
+  | 4 => InputOutputPredicatesOverlap | 5 => AssumptionContainsNonInputSymbols
+  | 6 => OutputPredicateInSpecificationAssumption | _ => PlaceholdersWithIdenticalNamesDifferentSorts
+  end.
+Definition condition (k : nat) (t : ext_task) : bool :=
+  match k with
+  | 1 => c_tight is_tight t | 2 => c_no_private_recursion has_private_recursion t
+  | 3 => c_no_input_in_head t | 4 => c_io_disjoint t | 5 => c_ug_assumptions_inputs_only t
+  | 6 => c_spec_assumptions_no_output t | _ => c_placeholders_single_sorted t
+  end.
+Theorem single_violation_variant t k : 1 <= k <= 7 -> et_repr t = ReprTauStar ->
+  condition k t = false -> (forall j, 1 <= j <= 7 -> j <> k -> condition j t = true) ->
+  validate t = Err (variant_of k) /\ decompose_ext t = Err (variant_of k).
+Proof.
+  intros Hk Hr Hv Ho.
+  assert (Hval : validate t = Err (variant_of k)).
+  2:{ split; [exact Hval|]. unfold external_decompose. rewrite Hval. reflexivity. }
+  clear tau_star completion simp_classic.
+  assert (H1 := Ho 1). assert (H2 := Ho 2). assert (H3 := Ho 3). assert (H4 := Ho 4).
+  assert (H5 := Ho 5). assert (H6 := Ho 6). assert (H7 := Ho 7). clear Ho.
+  destruct t as [spec prog ug po dec dir repr byp simp brk]. cbn in Hr. subst repr.
+  destruct Hk as [Hk1 Hk7].
+  destruct k as [|[|[|[|[|[|[|[|k]]]]]]]]; try lia; clear Hk1 Hk7;
+  repeat match goal with H : 1 <= ?j <= 7 -> ?j <> ?i -> _ |- _ =>
+    first [specialize (H ltac:(lia) ltac:(lia)) | clear H] end;
+  unfold condition, variant_of, c_tight, c_no_private_recursion, c_no_input_in_head, c_io_disjoint,
+    c_ug_assumptions_inputs_only, c_spec_assumptions_no_output, c_placeholders_single_sorted,
+    task_prog_private, task_spec_private, external_validate, ensure_program_tightness in *;
+  cbn [et_specification et_program et_user_guide et_repr et_bypass_tightness] in *;
+  destruct spec as [p|s];
+  repeat (match goal with
+          | |- context [if negb ?c then _ else _] => destruct c eqn:?; cbn [negb]
+          | |- context [if ?c then _ else _] => destruct c eqn:?
+          end);
+  try reflexivity; exfalso;
+  repeat match goal with E : ?x = _, H : context [?x] |- _ => rewrite E in H end;
+  cbn in *; first [congruence | destruct byp; cbn in *; congruence].
 Qed.
 
 (* converse for the validation step: the seven conditions together with the three remaining
